@@ -4,15 +4,31 @@
   Model: LemoModel/TxGuard.lean (TxGuard, verifyTxs, initTxPool as coded; bucket index and the
   VerifyTxBody comparisons GENERATED from the Go source).
 
+  What is PROVED (all op sequences, all times): the replay key is the TX HASH, and by tx hash the
+  protection is exact (`at_most_once_by_id`, `guard_exact_for_valid_blocks`, `accepted_inside_window`,
+  `window_safe`, `restart_equiv_initTxPool`).
+
   FULL STATEMENT (`at_most_once_by_content`): on any single branch accepted by `verifyTxs` every
-  signed CONTENT (signing hash) is executed at most once — across blocks, inside one block,
-  standalone or as a box sub-tx, under any signature re-encoding — and never outside its window.
-  It is FALSE for the code as it stands; see the refutation witnesses at the end
-  (`replay_malleated_signature`, `replay_surplus_signature`, `replay_duplicate_in_block`,
-  `replay_box_and_standalone_in_block`, `miner_builds_block_its_validator_rejects`) and the theorem
-  `at_most_once_by_content_partial` for the exact guard under which it holds.
+  signed CONTENT (what a user's signature covers) is executed at most once — across blocks, inside one
+  block, standalone or as a box sub-tx, under any re-encoding.  It is FALSE for the code, for ONE
+  root cause: the tx hash covers more than any signature covers (the signature LISTS themselves and,
+  for a reimbursement tx, the gas terms from the sender's point of view), while authorisation
+  (`checkSignersWeight`) accepts many lists.  Re-encodings that need NO key of the victim:
+    * surplus foreign signature on a plain account's tx        (`reencode_surplus`, OPEN)
+    * gas payer re-wraps the same sender signature at another gas price / limit
+                                                               (`reencode_payer_rewrap`, OPEN)
+    * multisig list re-ordered / with a repeated entry / with a foreign entry / with a dispensable
+      signature dropped                                        (`reencode_multisig`, OPEN)
+    * the high-s twin `(r, n−s, v⊕1)`    (`reencode_malleated`: closed by fix 04be1c5 in recoverSigners,
+      i.e. OUTSIDE verifyTxs — the guard model is unchanged by that fix)
+  Chain-level consequence of any of them: `replay_reencoded`, `replay_payer_rewrap`.
+  Inside one block (closed by fix 828f704, `fixed = true`): `replay_duplicate_in_block`,
+  `replay_box_and_standalone_in_block`.  Miner side: `miner_builds_block_its_validator_rejects`
+  (pool content before fix 40527b6), `miner_packs_too_far_tx` (candidates before fix 2e18e3d); positive:
+  `miner_block_passes_verify`.
+  `at_most_once_by_content_partial` holds under `Canonical` — see there for what that REALLY requires.
 -/
-import LemoProofs.Lemmas.TxGuardWalk
+import LemoProofs.Lemmas.TxGuardRestart
 namespace LemoProofs.C04
 open LemoModel LemoModel.TxGuard LemoGen.TxWindow LemoProofs.TxGuardLemmas
 
@@ -365,6 +381,191 @@ theorem initTxPool_reach (byHeight : Nat → Option Block) (stable : Block)
     ∃ U, Reach g U [] stable.time ∧ ∀ x ∈ U, ∃ h, byHeight h = some x :=
   initLoop_reach byHeight stable.time hfun _ _ _ _ [] _ _ (Reach.init _) hst (fun x hx => by cases hx) h
 
+theorem TreeOK_sub {U V : List Block} (h : TreeOK V) (hs : ∀ x ∈ U, x ∈ V) : TreeOK U :=
+  ⟨fun b hb => h.parentLt b (hs b hb), fun b hb p hp => h.height b (hs b hb) p (hs p hp),
+   fun b hb p hp => h.time b (hs b hb) p (hs p hp)⟩
+
+/-- **what initTxPool loads**: on the stable chain `stable :: l` (parent-linked down to genesis, times
+    monotone, uint32) the rebuilt guard is reachable with `U` = EXACTLY the chain blocks with
+    `stable.time ≤ time + 1800` — the model's loop test `stableTime - iter.Time() <= MaxTxLifeTime`.
+    (With `<` instead of `<=`, or a shorter window, this statement is false.) -/
+theorem initTxPool_loads (byHeight : Nat → Option Block) (stable : Block) (l : List Block)
+    (hch : ChainOK (stable :: l)) (hby : ∀ y ∈ stable :: l, byHeight y.height = some y)
+    (hfun : ∀ h1 h2 b1 b2, byHeight h1 = some b1 → byHeight h2 = some b2 → b1.hash = b2.hash → b1 = b2)
+    (hsT : stable.time < 2 ^ 32) {g : Guard} (h : initTxPool byHeight stable = .ok g) :
+    ∃ U, Reach g U [] stable.time ∧ ∀ a, a ∈ U ↔ (a ∈ stable :: l ∧ stable.time ≤ a.time + 1800) := by
+  obtain ⟨U, hr, _, hmem⟩ := initLoop_loads byHeight stable.time hsT hfun l stable hch hby (chain_time_le hch)
+    (stable.height + 1) (newTxGuard stable.time) [] stable.time g (Reach.init _) (fun x hx => by cases hx) h
+  refine ⟨U, hr, fun a => ?_⟩
+  rw [hmem]
+  constructor
+  · rintro (h1 | h1)
+    · cases h1
+    · exact h1
+  · exact Or.inr
+
+/-- `initTxPool` returns on every stable chain that reaches genesis: no `ErrLoadBlock` panic, no hang -/
+theorem initTxPool_total (byHeight : Nat → Option Block) (stable : Block) (l : List Block)
+    (hch : ChainOK (stable :: l)) (hby : ∀ y ∈ stable :: l, byHeight y.height = some y)
+    (hfun : ∀ h1 h2 b1 b2, byHeight h1 = some b1 → byHeight h2 = some b2 → b1.hash = b2.hash → b1 = b2) :
+    ∃ g, initTxPool byHeight stable = .ok g :=
+  initLoop_total byHeight stable.time hfun l stable hch hby (stable.height + 1) (newTxGuard stable.time) []
+    stable.time (Nat.lt_succ_self _) (Reach.init _) (fun x hx => by cases hx)
+
+/-- **restart_equiv_initTxPool**: `restart_equiv` with its crux PROVED for the guard that `initTxPool`
+    rebuilds.  A node that kept running (`gC`, any reachable state whose ancestors of the stable block
+    are the database's stable chain) and the same node after a restart (`gR = initTxPool …`) give the
+    same `verifyTxs` verdict for every new block on top of the stable block. -/
+theorem restart_equiv_initTxPool {fixed : Bool} {gC : Guard} {UC : List Block} {KC : List Nat} {TC : Nat}
+    (hC : Reach gC UC KC TC) (treeC : TreeOK UC) (admC : Admissible UC)
+    (byHeight : Nat → Option Block) (stable : Block) (l : List Block)
+    (hch : ChainOK (stable :: l)) (hby : ∀ y ∈ stable :: l, byHeight y.height = some y)
+    (hfun : ∀ h1 h2 b1 b2, byHeight h1 = some b1 → byHeight h2 = some b2 → b1.hash = b2.hash → b1 = b2)
+    (hsT : stable.time < 2 ^ 32) (treeL : TreeOK (stable :: l)) (admL : Admissible (stable :: l))
+    {gR : Guard} (hinit : initTxPool byHeight stable = .ok gR)
+    (hchainC : ∀ a, Anc UC stable.hash a ↔ a ∈ stable :: l)
+    {b : Block} (hpar : b.parent = stable.hash) (hparC : ∃ pb ∈ gC.cache, pb.hash = b.parent)
+    (hTC : TC ≤ b.time) (hTb : stable.time ≤ b.time) (hbexp : ∀ c ∈ b.cores, c.exp < 2 ^ 64)
+    (hidC : IdFun (UC.flatMap Block.cores ++ b.cores))
+    (hidL : IdFun ((stable :: l).flatMap Block.cores ++ b.cores)) :
+    verifyTxs fixed gC b = verifyTxs fixed gR b := by
+  obtain ⟨UR, hR, hmem⟩ := initTxPool_loads byHeight stable l hch hby hfun hsT hinit
+  have hsub : ∀ x ∈ UR, x ∈ stable :: l := fun x hx => ((hmem x).1 hx).1
+  have treeR : TreeOK UR := TreeOK_sub treeL hsub
+  have admR : Admissible UR := fun x hx => admL x (hsub x hx)
+  have hidR : IdFun (UR.flatMap Block.cores ++ b.cores) := by
+    have hin : ∀ c, c ∈ UR.flatMap Block.cores ++ b.cores → c ∈ (stable :: l).flatMap Block.cores ++ b.cores := by
+      intro c hc
+      rcases List.mem_append.1 hc with h1 | h1
+      · obtain ⟨x, hx, hcx⟩ := List.mem_flatMap.1 h1
+        exact List.mem_append.2 (Or.inl (List.mem_flatMap.2 ⟨x, hsub x hx, hcx⟩))
+      · exact List.mem_append.2 (Or.inr h1)
+    exact fun c1 h1 c2 h2 he => hidL c1 (hin c1 h1) c2 (hin c2 h2) he
+  have hstR : stable ∈ UR := (hmem stable).2 ⟨List.mem_cons_self .., by omega⟩
+  have invR := reach_inv hR
+  have hparR : ∃ pb ∈ gR.cache, pb.hash = b.parent := by
+    refine ⟨stable, (invR.cacheIff stable).2 ⟨hstR, ?_⟩, hpar.symm⟩
+    have := invR.baseT
+    have : gR.tb.timeBase ≤ stable.time := by omega
+    exact Nat.div_le_div_right this
+  refine restart_equiv hC hR treeC treeR admC admR hparC hparR hTC hTb hbexp hidC hidR ?_
+  intro a hyoung
+  rw [hpar]
+  constructor
+  · intro hanc
+    have hach := (hchainC a).1 hanc
+    exact anc_of_chain l stable hch (fun y hy hw => (hmem y).2 ⟨hy, hw⟩) a hach (by omega)
+  · intro hanc
+    exact (hchainC a).2 (hsub a (anc_mem hanc))
+
+/-! ## queries on the head, and the miner path -/
+
+/-- every saved block that is not older than the latest stable time is still cached, and `ExistTxs`
+    started there returns (no panic, no hang): the entry points that ask `ExistTx(currentBlock, tx)`
+    (api.go SendTx, protocol_manager.go handleTxsMsg, dpovp.go saveNewBlock) are total, because the
+    current block is a saved descendant-or-self of the stable block. -/
+theorem head_query_total {g : Guard} {U : List Block} {K : List Nat} {T : Nat} (hr : Reach g U K T)
+    (tree : TreeOK U) {hb : Block} (hbU : hb ∈ U) (hT : T ≤ hb.time) (txs : List Tx) :
+    hb ∈ g.cache ∧ ∃ r, g.existTxs hb.hash txs = .ok r := by
+  have inv := reach_inv hr
+  have hc : hb ∈ g.cache := (inv.cacheIff hb).2 ⟨hbU, by
+    have := inv.baseT
+    have : g.tb.timeBase ≤ hb.time := by omega
+    exact Nat.div_le_div_right this⟩
+  obtain ⟨r, h, _⟩ := exist_tracer inv tree hc txs
+  exact ⟨hc, r, h⟩
+
+/-- `GetTxsByBranch` (called by `onCurrentChanged` on a fork switch) cannot fail when the old and the new
+    head are saved blocks with a common ancestor that is still cached — in the engine that ancestor is
+    the stable block or younger, and `head_query_total` says it is cached.  The error branch of
+    `onCurrentChanged` (pool update skipped) is therefore unreachable from reachable guard states. -/
+theorem getTxsByBranch_total {g : Guard} {U : List Block} {K : List Nat} {T : Nat} (hr : Reach g U K T)
+    (tree : TreeOK U) {c b1 b2 : Block} (hc : c ∈ g.cache) (h1 : b1 ∈ U) (h2 : b2 ∈ U)
+    (han1 : Anc U b1.hash c) (han2 : Anc U b2.hash c) :
+    ∃ t1 t2, g.getTxsByBranch b1.hash b1.height b2.hash b2.height = .ok t1 t2 := by
+  obtain ⟨r1, r2, h⟩ := branchLoop_total (reach_inv hr) tree hc (b1.height + b2.height + 1) b1 b2 [] [] h1 h2
+    han1 han2 (Nat.lt_succ_self _)
+  unfold Guard.getTxsByBranch
+  rw [h]
+  exact ⟨_, _, rfl⟩
+
+/-- `ExistTxs` on a list is the disjunction of `ExistTx` on its elements (the common height range of
+    the merged traces changes nothing): what the pool's entry paths check tx by tx is what `verifyTxs`
+    checks on the whole block -/
+theorem existTxs_any {g : Guard} {U : List Block} {K : List Nat} {T : Nat} (hr : Reach g U K T)
+    (tree : TreeOK U) {pb : Block} (hpb : pb ∈ g.cache) (txs : List Tx) :
+    ∃ r, g.existTxs pb.hash txs = .ok r ∧ (r = true ↔ ∃ tx ∈ txs, g.existTxs pb.hash [tx] = .ok true) := by
+  have inv := reach_inv hr
+  obtain ⟨r, h, hiff⟩ := exist_tracer inv tree hpb txs
+  refine ⟨r, h, ?_⟩
+  rw [hiff]
+  constructor
+  · rintro ⟨a, hca, id, hid, hp⟩
+    obtain ⟨tx, htx, hidtx⟩ := List.mem_flatMap.1 hid
+    refine ⟨tx, htx, ?_⟩
+    obtain ⟨r1, h1, hiff1⟩ := exist_tracer inv tree hpb [tx]
+    have : r1 = true := hiff1.2 ⟨a, hca, id, by simpa [idsOf] using hidtx, hp⟩
+    rw [h1, this]
+  · rintro ⟨tx, htx, h1⟩
+    obtain ⟨r1, h1', hiff1⟩ := exist_tracer inv tree hpb [tx]
+    rw [h1'] at h1
+    cases h1
+    obtain ⟨a, hca, id, hid, hp⟩ := hiff1.1 rfl
+    exact ⟨a, hca, id, List.mem_flatMap.2 ⟨tx, htx, by simpa [idsOf] using hid⟩, hp⟩
+
+theorem idsOf_filter_sublist (p : Tx → Bool) (pool : List Tx) : (idsOf (pool.filter p)).Sublist (idsOf pool) := by
+  unfold idsOf
+  induction pool with
+  | nil => exact List.Sublist.refl _
+  | cons tx rest ih =>
+    rw [List.filter_cons]
+    split
+    · simp only [List.flatMap_cons]
+      exact List.Sublist.append (List.Sublist.refl _) ih
+    · simp only [List.flatMap_cons]
+      exact List.Sublist.trans ih (List.sublist_append_right _ _)
+
+/-- **miner_block_passes_verify** (positive theorem for the miner path): if, when the node mines on its
+    head `pb`, (1) no pooled tx is on the head's branch — what ALL entry paths of the pool ask the guard,
+    tx by tx (since fix 40527b6 also the side-branch path) — and (2) the pool holds no tx / sub-tx hash
+    twice (`isTxExist`), then the block that `MineBlock` assembles (since fix 2e18e3d: `GetTxs(time)`
+    filtered by `VerifyTxBody` at the block time) and stores WITHOUT running `verifyTxs` would pass it.
+    (1) at mining time — rather than at entry time — is the pool's bookkeeping on head changes
+    (`onCurrentChanged`: property C18 and the engine scenarios), not proved here. -/
+theorem miner_block_passes_verify {fixed : Bool} {g : Guard} {U : List Block} {K : List Nat} {T : Nat}
+    (hr : Reach g U K T) (tree : TreeOK U) {pb : Block} (hpb : pb ∈ g.cache) (pool : List Tx)
+    (hash height time : Nat)
+    (hclean : ∀ tx ∈ pool, g.existTxs pb.hash [tx] = .ok false)
+    (hnodup : (idsOf pool).Nodup) :
+    verifyTxs fixed g ⟨hash, pb.hash, height, time, minePack pool time⟩ = .ok true := by
+  have hpick : ∀ tx, tx ∈ minePack pool time → tx ∈ pool ∧ tx.validAt time = true := by
+    intro tx htx
+    unfold minePack minerPick at htx
+    rw [List.mem_filter, List.mem_filter] at htx
+    exact ⟨htx.1.1, htx.2⟩
+  unfold verifyTxs
+  have hnd : (Block.ids ⟨hash, pb.hash, height, time, minePack pool time⟩).Nodup :=
+    List.Nodup.sublist (List.Sublist.trans (idsOf_filter_sublist _ _) (idsOf_filter_sublist _ pool)) hnodup
+  rw [if_neg (by simp [hnd])]
+  obtain ⟨r, hrr, hiff⟩ := existTxs_any hr tree hpb (minePack pool time)
+  show (match g.existTxs pb.hash (minePack pool time) with
+    | .ok true => Out.ok false
+    | .ok false => Out.ok ((minePack pool time).all fun tx => tx.validAt time)
+    | .panic => Out.panic
+    | .hang => Out.hang) = Out.ok true
+  rw [hrr]
+  have hrf : r = false := by
+    cases r with
+    | false => rfl
+    | true =>
+      obtain ⟨tx, htx, h1⟩ := hiff.1 rfl
+      rw [hclean tx (hpick tx htx).1] at h1
+      cases h1
+  rw [hrf]
+  simp only
+  congr 1
+  exact List.all_eq_true.2 (fun tx htx => (hpick tx htx).2)
+
 /-! ## at_most_once_by_content: partial theorem -/
 
 theorem nodup_map_of_inj {α β γ : Type} (f : α → β) (k : α → γ) :
@@ -391,13 +592,20 @@ theorem ids_eq_map (b : Block) : b.ids = b.cores.map (·.txId) := by
     simp only [List.flatMap_cons, List.map_append, ih]
     rfl
 
-/-- one encoding per signed content: canonical (low-s) signatures and exactly the required signature
-    count make the full hash a function of the signed content -/
+/-- `Canonical`: the tx hash is a function of the content the SENDER signed.  This is a HYPOTHESIS, and
+    the code does not come close to enforcing it.  It requires ALL of:
+      * the whole signature list is a function of the signed content: fixed order, no repeated entry,
+        no foreign / surplus entry, no dispensable extra signer, low-s (only the last one is enforced,
+        since fix 04be1c5), and deterministic signing nonces;
+      * the gas terms are covered by the sender's signature — false for every reimbursement tx
+        (`ReimbursementTxSigner.Hash` omits GasPrice / GasLimit; the payer chooses them);
+    see `canonical_encoding_unique` for the positive form and `reencode_surplus`,
+    `reencode_payer_rewrap`, `reencode_multisig` for the ways it fails on the current code. -/
 def Canonical (cs : List Core) : Prop := ∀ c1 ∈ cs, ∀ c2 ∈ cs, c1.content = c2.content → c1.txId = c2.txId
 
 /-- **at_most_once_by_content_partial**: WITH the repair (`fixed = true`: no tx hash twice inside a
-    block) and under `Canonical` (distinct tx hashes ⇒ distinct signed contents), an accepted block
-    executes no signed content that any ancestor executed, and none twice itself. -/
+    block) and under the hypothesis `Canonical` (NOT enforced by the code, see above), an accepted
+    block executes no sender-signed content that any ancestor executed, and none twice itself. -/
 theorem at_most_once_by_content_partial {g : Guard} {U : List Block} {K : List Nat} {T : Nat}
     (hr : Reach g U K T) (tree : TreeOK U) (adm : Admissible U) {b : Block}
     (hpar : ∃ pb ∈ g.cache, pb.hash = b.parent) (hT : T ≤ b.time)
@@ -435,47 +643,110 @@ def guardAfter (blocks : List Block) : Option Guard :=
   blocks.foldl (fun og b => og.bind (fun g => match g.saveBlock b with | .ok g' => some g' | _ => none))
     (some (newTxGuard 100000))
 
-/-- (a)/(b) the same signed content under a second encoding.  On the real code the second encoding is
-    (a) the malleated signature `(r, n−s, v⊕1)` — same signer recovered — or (b) the original signature
-    followed by a surplus foreign signature (a plain account's check looks at `signers[0]` only).
-    Either way `Transaction.Hash()` differs, so the model sees txId 1 vs txId 2 with content 50.
-    `verifyTxs` accepts the child block, with or without the duplicate-in-block repair: the content is
-    executed twice on one branch. -/
+/-- CHAIN LEVEL, any re-encoding: the same sender-signed content (50) under a second tx hash
+    (txId 1 vs txId 2).  `verifyTxs` accepts the child block, with or without the duplicate-in-block
+    repair: the content is executed twice on one branch.  Which second encodings the PROCESSOR then
+    authorises is the encoding layer below; the guard model is the same for all of them (in
+    particular it is unchanged by fix 04be1c5, which closed the high-s twin inside recoverSigners). -/
 def t1 : Tx := { txId := 1, content := 50, exp := 100900 }
 def t1' : Tx := { txId := 2, content := 50, exp := 100900 }
 def blkB : Block := ⟨2, 1, 1, 100010, [t1]⟩
 def blkC : Block := ⟨3, 2, 2, 100020, [t1']⟩
 
-theorem replay_malleated_signature :
+theorem replay_reencoded :
     ∃ g, guardAfter [gen, blkB] = some g ∧ verifyTxs false g blkC = .ok true ∧ verifyTxs true g blkC = .ok true ∧
       execCount [gen, blkB, blkC] 50 = 2 := by
   decide
 
-/-- signatures as the processor sees them: who they recover to and which of the two equivalent
-    encodings `(r,s,v)` / `(r,n−s,v⊕1)` is used -/
-structure SigEnc where
-  signer : Nat
-  highS : Bool
-  deriving DecidableEq, Repr
+/-- reimbursement tx: sender content 50 (omits the gas terms), payer content 60 resp. 61 (the payer
+    signed gas price 1 gwei, then 1 gwei + 1, over the SAME sender signature).  Each payer content is
+    executed once — the payer agreed twice — but the sender's content is executed twice although the
+    sender signed once: the payer alone replays the sender. -/
+def r1 : Tx := { txId := 11, content := 50, exp := 100900, payer := 60 }
+def r1' : Tx := { txId := 12, content := 50, exp := 100900, payer := 61 }
+def blkRB : Block := ⟨2, 1, 1, 100010, [r1]⟩
+def blkRC : Block := ⟨3, 2, 2, 100020, [r1']⟩
 
-/-- `checkSignersWeight` for a plain (non-multisig) account: at least one signature and the FIRST
-    recovered signer is the sender — surplus signatures are ignored, either encoding recovers -/
-def authorisedPlain (sender : Nat) (sigs : List SigEnc) : Bool :=
-  match sigs with
-  | [] => false
-  | s :: _ => s.signer == sender
-
-/-- (a) the malleated encoding and (b) an appended foreign signature are both authorised for the same
-    sender, and both are byte-different from the original signature list (so the full hash differs) -/
-theorem replay_surplus_signature :
-    let orig := [SigEnc.mk 7 false]
-    let malleated := [SigEnc.mk 7 true]
-    let surplus := [SigEnc.mk 7 false, SigEnc.mk 99 false]
-    authorisedPlain 7 orig = true ∧ authorisedPlain 7 malleated = true ∧ authorisedPlain 7 surplus = true ∧
-      orig ≠ malleated ∧ orig ≠ surplus ∧
-      -- and the chain-level consequence is the same as in (a)
-      (∃ g, guardAfter [gen, blkB] = some g ∧ verifyTxs true g blkC = .ok true ∧ execCount [gen, blkB, blkC] 50 = 2) := by
+theorem replay_payer_rewrap :
+    ∃ g, guardAfter [gen, blkRB] = some g ∧ verifyTxs true g blkRC = .ok true ∧
+      execCount [gen, blkRB, blkRC] 50 = 2 ∧
+      execCountPayer [gen, blkRB, blkRC] 60 = 1 ∧ execCountPayer [gen, blkRB, blkRC] 61 = 1 := by
   decide
+
+/-! ### the encoding layer: what `checkSignersWeight` authorises vs. what the tx hash covers
+    (sender 7 = plain account; account 8 = multisig [A=1:60, B=2:50, C=3:40]; X = 99 foreign) -/
+
+/-- OPEN (c04/replayed/surplus-signature): a foreign signature appended to a plain account's tx:
+    authorised (only `signers[0]` is compared), same sender content, different encoding = new hash. -/
+theorem reencode_surplus :
+    let e : Encoded := { body := 5, gasPrice := 1, gasLimit := 9, sigs := [⟨7, false⟩] }
+    let e' : Encoded := { e with sigs := [⟨7, false⟩, ⟨99, false⟩] }
+    e.authorised true 7 [] 7 [] = true ∧ e'.authorised true 7 [] 7 [] = true ∧
+      e.senderContent = e'.senderContent ∧ e ≠ e' := by
+  decide
+
+/-- CLOSED by fix 04be1c5 (outside verifyTxs): the high-s twin `(r, n−s, v⊕1)` of the signature.
+    Before the fix it was authorised like the original; since the fix it recovers to nobody. -/
+theorem reencode_malleated :
+    let e : Encoded := { body := 5, gasPrice := 1, gasLimit := 9, sigs := [⟨7, false⟩] }
+    let e' : Encoded := { e with sigs := [⟨7, true⟩] }
+    e.senderContent = e'.senderContent ∧ e ≠ e' ∧
+      e'.authorised false 7 [] 7 [] = true ∧      -- code before fix 04be1c5
+      e'.authorised true 7 [] 7 [] = false ∧      -- live code
+      e.authorised true 7 [] 7 [] = true := by
+  decide
+
+/-- OPEN (c04/replayed/payer-rewrap): the gas payer (6) wraps the SAME sender signature a second time
+    at another gas price (or limit): both authorised, same sender content and same sender signature
+    list, different payer content, different encoding = new hash.  Needs the payer's key only. -/
+theorem reencode_payer_rewrap :
+    let e : Encoded := { body := 5, gasPrice := 1000000000, gasLimit := 100000, sigs := [⟨7, false⟩], payerSigs := [⟨6, false⟩] }
+    let e' : Encoded := { e with gasPrice := 1000000001 }
+    let e'' : Encoded := { e with gasLimit := 100001 }
+    e.authorised true 7 [] 6 [] = true ∧ e'.authorised true 7 [] 6 [] = true ∧ e''.authorised true 7 [] 6 [] = true ∧
+      e.senderContent = e'.senderContent ∧ e.senderContent = e''.senderContent ∧ e.sigs = e'.sigs ∧
+      e.payerContent ≠ e'.payerContent ∧ e ≠ e' ∧ e ≠ e'' ∧ e' ≠ e'' ∧
+      -- an ordinary (not reimbursed) tx does not have the problem: the gas terms are in the sender's content
+      ({ e with payerSigs := [] } : Encoded).senderContent ≠ ({ e' with payerSigs := [] } : Encoded).senderContent := by
+  decide
+
+/-- OPEN (c04/replayed/multisig-reordered, -duplicated, -foreign-entry, -subset): for a multisig account
+    `checkSignersWeight` sums the weights of the distinct registered signers it recovers; the list may
+    come in any order, with repeated entries, with foreign entries, and without a dispensable signer.
+    None of the first three needs any key of the account; dropping a signature needs none at all. -/
+theorem reencode_multisig :
+    let acc : List (Nat × Nat) := [(1, 60), (2, 50), (3, 40)]
+    let mk : List Nat → Encoded := fun l => { body := 5, gasPrice := 1, gasLimit := 9, sigs := l.map (fun a => ⟨a, false⟩) }
+    let all := [mk [1, 2], mk [2, 1], mk [1, 2, 1], mk [1, 1, 2], mk [1, 2, 99], mk [1, 2, 3], mk [1, 3], mk [3, 2, 1]]
+    all.all (fun e => e.authorised true 8 acc 8 []) = true ∧
+      all.all (fun e => decide (e.senderContent = (mk [1, 2]).senderContent)) = true ∧
+      all.Nodup ∧
+      -- below the threshold it is refused: a signer's weight counts once (fix 5353fbf)
+      (mk [1, 1]).authorised true 8 acc 8 [] = false ∧ (mk [2, 3]).authorised true 8 acc 8 [] = false := by
+  decide
+
+/-- the positive form of `Canonical`: if an ordinary (not reimbursed) tx's signature list is a fixed
+    function `canon` of the content its sender signed, equal sender contents give equal encodings,
+    hence equal tx hashes -/
+theorem canonical_encoding_unique (canon : Nat × Option (Nat × Nat) → List SigEnc) (e e' : Encoded)
+    (h1 : e.payerSigs = []) (h2 : e'.payerSigs = [])
+    (hc1 : e.sigs = canon e.senderContent) (hc2 : e'.sigs = canon e'.senderContent)
+    (hs : e.senderContent = e'.senderContent) : e = e' := by
+  have hsig : e.sigs = e'.sigs := by rw [hc1, hc2, hs]
+  have hr1 : e.reimbursed = false := by unfold Encoded.reimbursed; rw [h1]; rfl
+  have hr2 : e'.reimbursed = false := by unfold Encoded.reimbursed; rw [h2]; rfl
+  unfold Encoded.senderContent at hs
+  rw [hr1, hr2] at hs
+  have hb : e.body = e'.body := congrArg Prod.fst hs
+  have hg := congrArg Prod.snd hs
+  simp only [Bool.false_eq_true, if_false] at hg
+  injection hg with hg
+  have hp : e.gasPrice = e'.gasPrice := congrArg Prod.fst hg
+  have hl : e.gasLimit = e'.gasLimit := congrArg Prod.snd hg
+  cases e; cases e'
+  simp only at hb hp hl hsig h1 h2
+  subst hb hp hl hsig h1 h2
+  rfl
 
 /-- (c) the SAME tx twice in ONE block: `verifyTxs` (before the repair) only looks at ancestors.
     The repaired `verifyTxs` rejects the block. -/
@@ -498,7 +769,8 @@ theorem replay_box_and_standalone_in_block :
       verifyTxs true g blkBoxA = .ok false ∧ verifyTxs true g blkBoxB = .ok false := by
   decide
 
-/-- (e) `saveNewBlock` puts the txs of a side-branch block into the pool even when they are already on
+/-- (e) CODE BEFORE fix 40527b6 (the fix changes what enters the pool, not `verifyTxs` / `minerPick`):
+    `saveNewBlock` put the txs of a side-branch block into the pool even when they were already on
     the current branch; `MineBlock` takes `GetTxs` (only the expiry filter) and never asks the guard:
     current branch G–B(t1); side block S(t1) on G arrives ⇒ pool = [t1]; the block the honest miner
     builds on B contains t1 again and is rejected by every validator's `verifyTxs` (its own included,
@@ -510,6 +782,20 @@ theorem miner_builds_block_its_validator_rejects :
     let mined : Block := ⟨5, 2, 2, 100030, minerPick pool 100030⟩
     ∃ g, guardAfter [gen, blkB, blkS] = some g ∧ mined.txs = [t1] ∧
       verifyTxs false g mined = .ok false ∧ execCount [gen, blkB, mined] 50 = 2 := by
+  decide
+
+/-- CODE BEFORE fix 2e18e3d (c04/miner-packs-too-far-tx): `GetTxs` filters expired txs only; a pooled tx
+    whose expiration is more than 1800 s after the block time was packed, and the block — stored by the
+    miner without verifyTxs — is rejected by every validator (ErrTxExpiration).  The pool's entry paths
+    check the window against the wall clock AT ENTRY, but a tx taken over from a side-branch block
+    stamped 1 s in the future (verifyTime's tolerance) can be mined at a stamp 1 s before that.
+    Since the fix `MineBlock` filters the candidates (`minePack`): the tx stays in the pool. -/
+theorem miner_packs_too_far_tx :
+    let far : Tx := { txId := 21, content := 70, exp := 100030 + 1801 }
+    let mined : Block := ⟨5, 2, 2, 100030, minerPick [far] 100030⟩
+    ∃ g, guardAfter [gen, blkB] = some g ∧ mined.txs = [far] ∧ g.existTxs 2 [far] = .ok false ∧
+      verifyTxs true g mined = .ok false ∧
+      minePack [far] 100030 = [] ∧ minePack [far] 100031 = [far] := by
   decide
 
 end Refutations
@@ -531,5 +817,20 @@ example :
       b2 ∈ g3.cache ∧ verifyTxs true g3 b3 = .ok true ∧
       b2.txs.all (fun tx => tx.validAt b2.time) = true := by
   decide
+
+/-- `initTxPool_loads` / `restart_equiv_initTxPool` are not vacuous, and the boundary is where the
+    code puts it: a stable block exactly 1800 s after genesis reloads genesis, 1801 s after does not -/
+example :
+    let g0 : Block := ⟨1, 0, 0, 100000, []⟩
+    let g1 : Block := ⟨2, 1, 1, 100001, []⟩
+    let s : Block := ⟨3, 2, 2, 101800, []⟩
+    let s' : Block := ⟨3, 2, 2, 101801, []⟩
+    let byH := fun (st : Block) (h : Nat) => [st, g1, g0].find? (fun b => b.height == h)
+    (match initTxPool (byH s) s with | .ok g => g.cache.map (·.hash) | _ => []) = [3, 2, 1] ∧
+    (match initTxPool (byH s') s' with | .ok g => g.cache.map (·.hash) | _ => []) = [3, 2] := by
+  decide
+
+example : ChainOK [(⟨3, 2, 2, 101800, []⟩ : Block), ⟨2, 1, 1, 100001, []⟩, ⟨1, 0, 0, 100000, []⟩] :=
+  .cons rfl rfl (by decide) (.cons rfl rfl (by decide) (.single _ rfl))
 
 end LemoProofs.C04
